@@ -3,7 +3,7 @@
    go-yaml is external: [U] is Kustomization.Unmarshal on the file's bytes, [R k n] the lines of
    yaml.Marshal of the struct holding only field n of k (marshalField after its emptiness test).
    Definitions only. *)
-From KV Require Export Edit.Kustfile Edit.Ops.
+From KV Require Export Edit.Kustfile Edit.YamlView Edit.Ops.
 Local Open Scope list_scope.
 
 (* marshalField: empty or unknown fields give no bytes *)
@@ -16,12 +16,13 @@ Definition read_typed (U : file -> res kust) (f : file) : res kust :=
 Definition write_file (R : kust -> string -> list line) (f : file) (k : kust) : file :=
   mkFile (marshal (parse_commented_fields f) (trailing_kept f) (render_field R k)) None.
 
-(* Domain of the go-yaml round-trip assumption for one write: every comment line marshal re-emits
-   is [plain], and no rendered field contains a blank or comment-looking line (no multi-line string
-   value with such a line).  Outside it a re-emitted comment can be lexed as scalar content. *)
+(* Domain of the go-yaml round-trip assumption for one write = the guards of C17_yaml_comments_of_write:
+   every comment line marshal re-emits is [plain] (blank or '#' in column 0) and every rendered field is
+   clean in the YAML view (comment-looking lines only INSIDE its block scalars).  Outside it a re-emitted
+   indented comment can be lexed as scalar content (the two block-scalar findings). *)
 Definition write_is_plain (R : kust -> string -> list line) (f : file) (k : kust) : bool :=
   forallb plain_comment (kept_comments (parse_commented_fields f) ++ trailing_kept f) &&
-  forallb (fun n => forallb (fun l => negb (is_comment_or_blank l)) (render_field R k n)) gen_field_order.
+  forallb (fun n => rendering_clean (render_field R k n)) gen_field_order.
 
 (* the command line tool: outcome class and the file afterwards *)
 Definition edit_file (e : env) (U : file -> res kust) (R : kust -> string -> list line)
